@@ -4,7 +4,7 @@
 id=$1; tier=${2:-quick}; wt=/tmp/wt_$id; sd=/tmp/seed_$id
 set -u
 cd $wt || exit 9
-git checkout -q -- . ; git stash list | grep -q . && git stash drop -q
+git checkout -q -- .
 echo "== demo on clean tree"; PYTHONPATH=$wt timeout 300 /venv/bin/python $sd/demo.py > $sd/demo_clean.out 2>&1; rc0=$?; tail -2 $sd/demo_clean.out; echo "rc=$rc0"
 git apply $sd/patch.diff || { echo "PATCH DOES NOT APPLY"; exit 8; }
 echo "== demo on patched tree"; PYTHONPATH=$wt timeout 300 /venv/bin/python $sd/demo.py > $sd/demo_patched.out 2>&1; rc1=$?; tail -3 $sd/demo_patched.out; echo "rc=$rc1"
